@@ -28,6 +28,11 @@ Check(r, idx) ==
     \* the load is not disturbed - a second Get joins it instead of invoking its loader
     \o (IF r.hang = 0 /\ r.overlap = 1 THEN <<F(idx, "C08.overlap_after_stale_eviction", <<r.ldruns, r.sc>>)>> ELSE <<>>)
     \o (IF r.hang = 1 /\ r.sc.op \in {"ld.staleevict.inv", "ld.staleevict.set"} THEN <<F(idx, "C08.hang", r.sc)>> ELSE <<>>)
+    \* a maintenance run fires the timer of an expired entry that a parked writer has already replaced (op swp-x: the run reports nothing, the
+    \* node is no longer mapped); the writer's event, replayed afterwards, still delivers the replaced value - once, as expired
+    \o (IF r.hang = 0 /\ r.sc.op \in {"swp.set", "swp.compute"} /\ (r.massexpired # 1 \/ r.asynccause # "Expiration")
+        THEN <<F(idx, "C13.expiration_not_reported", <<r.massexpired, r.asynccause, r.gated, r.sc>>),
+               F(idx, "C06.replaced_expired_value_not_reported_once", <<r.massexpired, r.asynccause, r.gated, r.sc>>)>> ELSE <<>>)
     \* C20: a Compute that found the entry expired (its function was told "not found", the value left with Expiration) records a miss, whatever a
     \* reader stores into the replaced node afterwards (op sia-cmpgate: the reader's own lookup, before the deadline, is the one hit)
     \o (IF r.hang = 0 /\ r.sc.op = "sia.cmpgate" /\ (r.hits # 1 \/ r.misses # 1)
